@@ -21,6 +21,9 @@ struct custom { int v; };
 namespace trompeloeil {
 template <> struct printer<custom> { static void print(std::ostream &os, custom const &c) { os << "custom<" << c.v << ">"; } };
 }
+namespace trompeloeil {   // a user printer for a POINTER type: a null pointer still prints nullptr and never reaches it
+template <> struct printer<custom const *> { static void print(std::ostream &os, custom const *const &c) { os << "custom-ptr<" << (c ? c->v : -1) << ">"; } };
+}
 struct both { int v; };   // has operator<< AND a printer<> : the printer must win
 static std::ostream &operator<<(std::ostream &os, both const &) { return os << "WRONG-operator<<"; }
 namespace trompeloeil {
@@ -206,12 +209,32 @@ extern "C" void harness(void)
     VASSERT(verif_stream_cnt(&o3, wnull) == (isnull ? 1u : 0u) && verif_stream_cnt(&o3, wnc) == (isnull ? 0u : 1u), "C18.null_comparable_at_depth");
   }
   check_restore = false;
+#elif VF_T == 9        /* pointers to data members: null prints nullptr (nothing is dereferenced or dumped) */
+  bool isnull = (verif_nondet_uchar() & 1) != 0;
+  struct S { int k; int m; };
+  unsigned wobj = verif_watch_str("-byte object={");
+  { int S::*pm = isnull ? nullptr : &S::m;
+    trompeloeil::print(os, pm);
+    VASSERT(verif_stream_cnt(&os, wnull) == (isnull ? 1u : 0u), "C18.null_member_pointer_prints_nullptr");
+    // (a non-null one is streamable through its conversion to bool: how it then reads is not claimed)
+    if (isnull) VASSERT(verif_stream_cnt(&os, wobj) == 0, "C18.null_member_pointer_prints_only_nullptr");
+  }
+  check_restore = false;
 #elif VF_T == 6        /* printer<T> customisation point, also when operator<< exists */
   { custom cu{x};
     unsigned wc = verif_watch_str("custom<");
     trompeloeil::print(os, cu);
     VASSERT(verif_stream_cnt(&os, wc) == 1, "C18.user_printer_used");
     // user printer code runs with whatever state the stream carries: no exact-text claim
+  }
+  { std::ostringstream o5; verif_stream_set(&o5, w0, f0, c0);
+    bool isnull = (verif_nondet_uchar() & 1) != 0;
+    custom target{z};
+    custom const *cp = isnull ? nullptr : &target;
+    unsigned wcp = verif_watch_str("custom-ptr<");
+    trompeloeil::print(o5, cp);
+    VASSERT(verif_stream_cnt(&o5, wnull) == (isnull ? 1u : 0u), "C18.null_pointer_with_user_printer_prints_nullptr");
+    VASSERT(verif_stream_cnt(&o5, wcp) == (isnull ? 0u : 1u), "C18.user_pointer_printer_used_iff_not_null");
   }
   { std::ostringstream o2;
     unsigned wp = verif_watch_str("printer-both "), wwrong = verif_watch_str("WRONG-operator<<");
